@@ -2,6 +2,10 @@
 
 package suffix
 
+// lzvc-props: C01 C02 C03 C10 C11 C12
+// (GSAP, OSAP and Segments are verified against the ASSUMED contract of suffix.Sort; this stand-in is what validates it,
+// so it runs for every property that rests on that assumption: OSAP trusts the order without re-checking the bytes)
+
 // Bounded stand-in for the part of C09 that no contract reaches: suffix.Sort (DivSufSort: k1.go,
 // ssort.go, trsort.go - one array reused for five phases with sign-bit markers). The executable
 // contract "sa is the permutation that orders the suffixes strictly increasingly, t is unchanged,
